@@ -54,6 +54,10 @@ def load_units():
     for u in units:
         if u['kind'] == 'contract' and u['enforce'] and u['file'] in C19_FILES and 'C19' not in u['props']:
             u['props'].append('C19')
+    # the completion transitions carry C06's last clause (end-of-body marker before the completion callback)
+    for u in units:
+        if u['name'] in ('htp_tx_state_request_complete_partial', 'htp_tx_state_request_complete', 'htp_tx_state_response_complete_ex') and 'C06' not in u['props']:
+            u['props'].append('C06')
     names = [u['name'] for u in units]
     dup = set(n for n in names if names.count(n) > 1)
     if dup:
@@ -70,6 +74,8 @@ def load_known():
 
 def match_known(known, prop, unit, fail):
     for k in known.get('findings', []):
+        if k.get('probe_defs') or k.get('probe_undef') or k.get('static_probe'):
+            continue    # carved-out findings are matched only by their probe run, never against the regular unit
         if k.get('property') not in (prop, '*') and prop not in k.get('also', []):
             continue
         if k.get('unit') and k['unit'] != unit:
